@@ -355,6 +355,20 @@ func Episode(r *rng.R, mode string) []string {
 
 func Sweep(e *Engine, tier string, seed uint64, mode string, res *report.Result) {
 	res.Rule = "E3: structured random episodes on a real ToxicCollection: 1-3 links (both directions), chains built before and after links start, source chunks of 1-1000 bytes, add/update/remove/reset of toxics (re-used names, middle removals) at quiescent points and while chunks are held by latency/bandwidth/slicer stages or blocked on a non-accepting sink, sink back-pressure, source EOF, virtual-time advances around every timer. After every operation the API call state, the chain listing and, per link, the source reads, the sink writes (bytes, boundaries, virtual times) and the close are compared with the Lean link model. distinct_nontrivial counts distinct (operation, program-counter vector) paths."
+	// wanted: a failure of one of the properties this run is about (or of none in particular)
+	wanted := func(f *report.Failure) bool {
+		return e.Props == "" || f.Property == "" || strings.Contains(","+e.Props+",", ","+f.Property+",")
+	}
+	// enough: three failures that concern this run, or a dozen of any kind
+	enough := func() bool {
+		n := 0
+		for k := range res.Failures {
+			if wanted(&res.Failures[k]) {
+				n++
+			}
+		}
+		return n >= 3 || len(res.Failures) >= 12
+	}
 	report1 := func(ops []string, f *report.Failure) {
 		g := f
 		if len(ops) == 0 || ops[0] != "allowblock" {
@@ -370,8 +384,17 @@ func Sweep(e *Engine, tier string, seed uint64, mode string, res *report.Result)
 				res.Failures = append(res.Failures, *run.Minimize(e, ops, f2))
 			} else {
 				Sweep(e, "quick", seed+13, mode, sub)
+				// (an oracle failure of this run's property first, else any)
+				picked := false
 				for _, x := range sub.Failures {
-					if x.Kind == "oracle" {
+					if x.Kind == "oracle" && wanted(&x) {
+						res.Failures = append(res.Failures, x)
+						picked = true
+						break
+					}
+				}
+				for _, x := range sub.Failures {
+					if !picked && x.Kind == "oracle" {
 						res.Failures = append(res.Failures, x)
 						break
 					}
@@ -384,7 +407,7 @@ func Sweep(e *Engine, tier string, seed uint64, mode string, res *report.Result)
 	for _, c := range append(append([][]string{}, Corpus...), Directed()...) {
 		if f := e.Run(c, res); f != nil {
 			report1(c, f)
-			if f.Kind == "disagreement" || len(res.Failures) >= 3 {
+			if f.Kind == "disagreement" || enough() {
 				return
 			}
 		}
@@ -402,7 +425,7 @@ func Sweep(e *Engine, tier string, seed uint64, mode string, res *report.Result)
 		ops := Episode(r, m)
 		if f := e.Run(ops, res); f != nil {
 			report1(ops, f)
-			if f.Kind == "disagreement" || len(res.Failures) >= 3 {
+			if f.Kind == "disagreement" || enough() {
 				return
 			}
 		}
